@@ -87,8 +87,16 @@ Definition disclose_here := Issuer1.disclose_here (ie_hash E) (ie_enc E) parse_u
 (* Value::pointer_mut followed by the in-place edit, as a functional update *)
 Definition update_at {A} := @Issuer1.update_at parse_index A.
 
+(* a reference token _sd or ... (repair F20): such a path can only lead into digest bookkeeping *)
+Definition reserved_token (path : string) : bool :=
+  existsb (fun t => String.eqb t "_sd" || String.eqb t "...") (split_on slash path).
+
+(* what build_disclosure makes of the path string: None = InvalidPathPointer before the claims are looked at *)
+Definition parse_path (path : string) : option (list string * string) :=
+  if reserved_token path then None else split_path path.
+
 Definition build_disclosure (claims : json) (path : string) (salt : json) : res (json * disc) :=
-  match split_path path with
+  match parse_path path with
   | Some (toks, key) => update_at toks (disclose_here key salt) claims
   | None => Err
   end.
